@@ -110,7 +110,7 @@ PROPS = {
         'design_ref': 'DESIGN.md section 5 C01',
     },
     'C05': {
-        'modules': FS_MODULES,
+        'modules': FS_MODULES + ['contracts.mappingstorage'],
         'lemmas': ['contracts.lemmas:lemma_c05_noleak'],
         'level': 'proof',
         'bounded': [
@@ -124,9 +124,10 @@ PROPS = {
                 'dropped, locks balanced; store/deleteObject/tpc_vote/tpc_finish/tpc_abort with a foreign '
                 'transaction proved without effect; tpc_begin proved to leave LOCKINV (lock held <=> transaction '
                 'recorded) also when metadata is over-long; tpc_abort proved to restore file end, staging, blob '
-                'dirty list and to release the commit lock; tpc_finish releases it on every path.',
-        'note': 'Single fault (a second failure inside a cleanup handler is outside). MappingStorage/DemoStorage/'
-                'BlobStorage wrappers: see C16/C13. Connection-level cleanup: C11.',
+                'dirty list and to release the commit lock; tpc_finish releases it on every path; MappingStorage.tpc_abort '
+                'proved to forget its own transaction and free the commit lock, and to change nothing for a foreign one.',
+        'note': 'Single fault (a second failure inside a cleanup handler is outside). MappingStorage.tpc_begin/'
+                'tpc_finish: not under contract; DemoStorage/BlobStorage wrappers: see C16/C13. Connection-level cleanup: C11.',
         'design_ref': 'DESIGN.md section 5 C05',
     },
     'C03': {
